@@ -58,6 +58,7 @@ inline void verif_free(void* p) {
   --t.live_count; t.live_bytes -= (long long)malloc_usable_size(p);
   free(p);
 }
+#ifdef SERDE_DEFINE_ALLOC   // exactly one translation unit (drv_serde.cpp) replaces the global allocation functions
 void* operator new(size_t n) { return verif_alloc(n); }
 void* operator new[](size_t n) { return verif_alloc(n); }
 void* operator new(size_t n, const std::nothrow_t&) noexcept { try { return verif_alloc(n); } catch (...) { return nullptr; } }
@@ -66,6 +67,7 @@ void operator delete(void* p) noexcept { verif_free(p); }
 void operator delete[](void* p) noexcept { verif_free(p); }
 void operator delete(void* p, const std::nothrow_t&) noexcept { verif_free(p); }
 void operator delete[](void* p, const std::nothrow_t&) noexcept { verif_free(p); }
+#endif
 
 namespace sd {
 
